@@ -99,6 +99,25 @@ def run(F, chk):
             rb.ok(key, F.body(CR + "::" + m).where(), "domains, certificates and name_fingerprint_idx are all updated")
         else:
             rb.violation(key, F.body(CR + "::" + m).where(), "%s updates only %s of the three resolver structures" % (m, sorted(got)))
+    # ---------------- R-C17-d -------------------------------------------------
+    # Certificate names are *patterns* (they may be `*.example.org`); the SNI trie stores them as keys and matches
+    # *hostnames* against them.  The mutators must treat a name as a key (insert / remove / domain_remove on it).  Handing
+    # a name to the hostname lookup (domain_lookup / lookup) to decide what to evict is a category error: a wildcard key is
+    # never `found` that way, so its entry survives the removal of its certificate and SNI keeps resolving to a
+    # fingerprint that no longer exists.
+    rdx = chk.rule("R-C17-d", "T4", "the resolver's mutators address trie entries by key, never through the hostname lookup", floor=2)
+    for m in ("add_certificate", "remove_certificate", "replace_certificate"):
+        if not F.has(CR + "::" + m):
+            continue
+        mb = lib.flat(F, F.body(CR + "::" + m), keep=(CR + "::add_certificate", CR + "::remove_certificate"))
+        rdx.fn(mb.path)
+        looks = [(bi, callee_of(t)) for bi, t in mb.calls() if callee_of(t).rsplit("::", 1)[-1] in ("domain_lookup", "lookup", "lookup_mut", "domain_lookup_mut")
+                 and ("trie" in callee_of(t).lower() or "TrieNode" in callee_of(t) or callee_of(t).startswith(CR))]
+        key = "%s|no hostname lookup on certificate names" % (CR + "::" + m)
+        if looks:
+            rdx.violation(key, mb.where(looks[0][0]), "%s consults %s: certificate names are trie keys (possibly wildcard patterns), not hostnames; a `*.suffix` key is never found by a hostname lookup, so its entry is not evicted / updated" % (m, looks[0][1].split("::")[-1]))
+        else:
+            rdx.ok(key, mb.where(), "trie entries are addressed by key only")
     # ---------------- R-C17-c -------------------------------------------------
     rc = chk.rule("R-C17-c", "T3", "strict SNI binding: routing only past the authority-matches-certificate edge", floor=2)
     rr = [p for p in F.paths() if p.startswith(ROUTER + "::route_from_request") and "{closure" not in p]
